@@ -11,6 +11,8 @@
 (*                                  a action invoked, ks/ke continuation   *)
 (*                                  run start/end, post, fork, join)       *)
 (*   Return(resp, err)              Exec returned                          *)
+(*   LateReturn(tag, resp, err)     a kept continuation, run by the harness*)
+(*                                  after Return, returned                 *)
 (* Silent: every step of the interpreter that no harness plugin sees       *)
 (* (built-in actions, end of sequence, frames popped, run finished).       *)
 (* The C06 invariants are conjoined to every step.                         *)
@@ -47,16 +49,25 @@ Logged ==
 Silent ==
     /\ l <= Len(Trace) /\ UNCHANGED l
     /\ \/ \E tag \in DOMAIN runs : Local(tag) /\ runs'[tag].log = runs[tag].log
-       \/ Finish
+       \/ \E tag \in DOMAIN runs : \E j \in 1..9 : LateStart(tag, j)
+       \/ Finish \/ FinishLate
+
+\* a kept continuation, run later by the harness, returned
+LateRet ==
+    /\ IsEvent("LateReturn")
+    /\ Ev.tag \in DOMAIN runs /\ runs[Ev.tag].st = "done"
+    /\ runs[Ev.tag].resp = Ev.resp
+    /\ LET e == runs[Ev.tag].err IN e.k = Ev.err.k /\ e.s = Ev.err.s /\ e.r = Ev.err.r /\ e.m = Ev.err.m
+    /\ UNCHANGED vars
 
 Ret ==
     /\ IsEvent("Return")
-    /\ phase = "done"
+    /\ phase \in {"late", "done"}
     /\ runs[Root].resp = Ev.resp
     /\ LET e == runs[Root].err IN e.k = Ev.err.k /\ e.s = Ev.err.s /\ e.r = Ev.err.r /\ e.m = Ev.err.m
     /\ UNCHANGED vars
 
-TraceNext == (Reset \/ Logged \/ Silent \/ Ret) /\ C06Inv'
+TraceNext == (Reset \/ Logged \/ Silent \/ Ret \/ LateRet) /\ C06Inv'
 
 TraceSpec == TraceInit /\ [][TraceNext]_tvars
 
